@@ -3,6 +3,7 @@ package gohbase
 // Shared gohbase-level harness: a real client wired to the simulated cluster.
 
 import (
+	"strings"
 	"context"
 	"fmt"
 	"os"
@@ -47,6 +48,10 @@ type simReport struct {
 func (r *simReport) bad(sig, f string, a ...any) {
 	if len(r.Violations) < 40 {
 		r.Violations = append(r.Violations, map[string]any{"sig": sig, "desc": fmt.Sprintf(f, a...)})
+	}
+	if !strings.HasPrefix(sig, "harness:") {
+		// should a later scenario never end (a client damaged like this may well hang), this is what the check reports
+		verifsim.SetStallVerdict(sig, fmt.Sprintf(f, a...))
 	}
 }
 
